@@ -438,3 +438,39 @@ def c06_class_matrix(tables, seed=1):
             h.op(f"destroy @{k} @{cp}"); h.op(f"destroy @{k} @{o}")
     h.op("fini")
     return h.text()
+
+
+# ---------------------------------------------------------------------------------------------------------
+# C01: an operation started with a private key, then C_Logout: may the session still produce output?
+# ---------------------------------------------------------------------------------------------------------
+def c01_op_after_logout(seed=1):
+    """Private token keys (AES, generic, RSA).  For every operation kind: C_*Init with the private key while the user is logged in, C_Logout (and in a second round C_Login
+    of the SO), then the single-part call / the multi-part calls.  Every such call is marked `nop expect-no-output`: the property says a private object can be used as a
+    key only through a session of a token on which the normal user is logged in.  One op text per case (so that each case is judged by itself)."""
+    U = ul
+    texts = []
+    for so_login in (False, True):
+        for ci in range(8):
+            rng = random.Random(seed)
+            h = OpsGen(rng)
+            h.prologue(1)
+            t = h.toks[0]
+            k = h.open(t, True); h.login(k, t, 'user')
+            aes = h.op(f"create @{k} 0={U(4)} 100={U(0x1f)} 1=01 2=01 3={hx('p-aes')} 11={'3c' * 16} 104=01 105=01 108=01 10a=01"); h.minted += 1
+            hm = h.op(f"create @{k} 0={U(4)} 100={U(0x10)} 1=01 2=01 3={hx('p-hmac')} 11={'4d' * 32} 108=01 10a=01"); h.minted += 1
+            cases = [("siginit", "251", f"@{hm}", [f"sign @{k} {'5c' * 20} 600"]), ("siginit", "251", f"@{hm}", [f"sigupd @{k} a1a2", f"sigfinal @{k} 600"]),
+                     ("encinit", "1081", f"@{aes}", [f"enc @{k} {'5c' * 16} 600"]), ("encinit", f"1082:{'00' * 16}", f"@{aes}", [f"encupd @{k} {'5c' * 32} 600", f"encfinal @{k} 600"]),
+                     ("decinit", "1081", f"@{aes}", [f"dec @{k} {'5c' * 16} 600"]), ("decinit", f"1082:{'00' * 16}", f"@{aes}", [f"decupd @{k} {'5c' * 32} 600", f"decfinal @{k} 600"]),
+                     ("siginit", "40", None, [f"sign @{k} {'5c' * 20} 600"]), ("decinit", "3", None, [f"dec @{k} {'00' * 127 + '02'} 600"])]
+            init, mech, key, calls = cases[ci]
+            if key is None:
+                pair = h.op(f"genpair @{k} 0 121={U(1024)} 122=010001 1=01 3={hx('p-rsa-pub')} 104=01 10a=01 / 1=01 2=01 3={hx('p-rsa')} 108=01 105=01"); h.minted += 2
+                key = f"@{pair}.1"
+            h.op(f"{init} @{k} {mech} {key}")
+            h.op(f"logout @{k}")
+            if so_login: h.op(f"login @{k} 0 {hx(t.so)}")
+            for c in calls:
+                h.op("nop expect-no-output"); h.op(c)
+            h.op("fini")
+            texts.append(h.text())
+    return texts
